@@ -1,14 +1,14 @@
 SPECIFICATION Spec
 CONSTANTS Tx = {"t1", "t2"}
-          MaxH = 2
+          MaxH = 1
           MAXTX = 1
           CAP = 100
           LIMIT = 100
           PreExec = TRUE
           Eager = TRUE
           Acts = {"admit", "rsp", "getpool", "verifyblock", "blocksaved"}
-          ListLen = 2
-          Depth = 2
+          ListLen = 1
+          Depth = 4
           EmitOn = TRUE
 VIEW View
 CONSTRAINT Bound
